@@ -299,6 +299,10 @@ func (x *allocRun) hintNet(l letter) (net.IPNet, bool) {
 			m = net.CIDRMask(g.page, 128)
 		case 1:
 			m = net.CIDRMask(x.r.Intn(g.page+1), 128) // shorter than (or equal to) the allocation length
+			if g.poollen < g.page && x.r.Intn(2) == 0 {
+				// between the pool's length and the allocation length: a block of several pages, which still fits in the pool (round 9)
+				m = net.CIDRMask(g.poollen+x.r.Intn(g.page-g.poollen), 128)
+			}
 		case 2:
 			m = net.CIDRMask(0, 128)
 		case 3:
